@@ -12,7 +12,9 @@ import (
 	"github.com/reactivego/ivg/generate"
 
 	"github.com/reactivego/ivg"
+	"github.com/reactivego/ivg/mdicons"
 	"github.com/reactivego/ivg/render"
+	"golang.org/x/image/math/f32"
 )
 
 // Independent reference implementations written from spec/iconvg-spec-v0.md and the property
@@ -718,8 +720,10 @@ func monitorGradient(line string, rect image.Rectangle, smp []image.Point, cs []
 		}
 		if c.Name == "Z" && len(rec.Paints) == nDraw+1 && pending != nil {
 			src := rec.Paints[nDraw]
+			// the pixel p of the target rectangle (relative to its corner) is painted with src.At(sp + p)
+			sp := rec.SPs[nDraw]
 			for k, p := range smp {
-				r, g, b, a := src.At(p.X, p.Y).RGBA()
+				r, g, b, a := src.At(sp.X+p.X, sp.Y+p.Y).RGBA()
 				got := [4]float64{float64(r), float64(g), float64(b), float64(a)}
 				if r > a || g > a || b > a {
 					return append(fails, Failure{"C15.premultiplied", line, fmt.Sprintf("path ending at call %d: At(%d,%d) = %v is not a valid premultiplied colour", i, p.X, p.Y, got)})
@@ -979,7 +983,7 @@ func spellPath(d string, adj uint8, sx, sy, tx, ty float64) (out []struct {
 
 func monitorPathData(line string, ops []GenOp, obs string) (fails []Failure) {
 	sx, sy, tx, ty := 1.0, 1.0, 0.0, 0.0
-	for _, o := range ops {
+	for oi, o := range ops {
 		if o.Kind == "xf" {
 			sx, sy, tx, ty = 1, 1, 0, 0
 			for _, a := range o.Affs { // scale-and-translate transforms composed in order
@@ -994,14 +998,18 @@ func monitorPathData(line string, ops []GenOp, obs string) (fails []Failure) {
 		if !ok {
 			return nil
 		}
+		// one Generator lives through the whole history: the transforms configured before this path, and the
+		// paths emitted before it, precede it on the same object
 		rec := &Recorder{}
 		g := &generate.Generator{}
 		g.SetDestination(rec)
-		for _, p := range ops {
-			if p.Kind == "xf" {
+		for _, p := range ops[:oi] {
+			func() {
+				defer func() { recover() }()
 				ApplyGen(g, p)
-			}
+			}()
 		}
+		rec.Calls = nil
 		var perr string
 		func() {
 			defer func() {
@@ -1104,4 +1112,93 @@ func init() {
 		return monitorC13(line, b)
 	}
 	Monitors["C03"] = func(line string) []Failure { return nil }
+}
+
+// ---------- Material Design converter (C20): opacity registers, circles, path framing ----------
+
+// monitorMdi checks the converter clauses of C20 that do not depend on the path-data dialect: a path
+// opacity becomes a blend of transparent (0x7f) with the first palette colour (0x80) in a register of
+// its own, one register per distinct opacity in order of first appearance, reused afterwards; the
+// path starts with that register adjustment, is ended exactly once, and every circle is a move (or
+// the path start) to its leftmost point followed by two half-turn relative arcs, after the path data.
+func monitorMdi(line string, size float32, off f32.Vec2, outSize float32, paths []MdPath) (fails []Failure) {
+	rec := &Recorder{}
+	adjs := map[float32]uint8{}
+	seen := map[float32]uint8{}
+	bad := func(k int, msg string) []Failure {
+		return append(fails, Failure{"C20.converter", line, fmt.Sprintf("path %d: %s", k, msg)})
+	}
+	for k, p := range paths {
+		mp := &mdicons.Path{D: p.D}
+		if p.Opacity != 1 {
+			o := p.Opacity
+			mp.Opacity = &o
+		}
+		before := len(rec.Calls)
+		var err error
+		perr := ""
+		func() {
+			defer func() {
+				if x := recover(); x != nil {
+					perr = fmt.Sprint(x)
+				}
+			}()
+			err = mdicons.ParsePath(rec, mp, adjs, size, off, outSize, p.Circles)
+		}()
+		if perr != "" {
+			return bad(k, "panic: "+perr)
+		}
+		if err != nil {
+			return bad(k, fmt.Sprintf("well-formed path (opacity %g, %d distinct opacities before it) rejected: %v", p.Opacity, len(seen), err))
+		}
+		seg := rec.Calls[before:]
+		wantAdj := uint8(0)
+		if p.Opacity != 1 {
+			a, ok := seen[p.Opacity]
+			if !ok {
+				a = uint8(len(seen) + 1)
+				seen[p.Opacity] = a
+				if len(seg) == 0 || seg[0].Name != "creg" || seg[0].Adj != a || seg[0].Incr || seg[0].Col != ivg.BlendColor(uint8(p.Opacity*0xff), 0x7f, 0x80) {
+					return bad(k, fmt.Sprintf("first use of opacity %g: expected SetCReg(%d, false, blend(%d, 0x7f, 0x80)) first", p.Opacity, a, uint8(p.Opacity*0xff)))
+				}
+				seg = seg[1:]
+			}
+			wantAdj = a
+		}
+		if len(seg) < 2 || seg[0].Name != "start" || seg[0].Adj != wantAdj {
+			return bad(k, fmt.Sprintf("expected StartPath with register adjustment %d (opacity %g) at the head of the path", wantAdj, p.Opacity))
+		}
+		for j, c := range seg {
+			if (c.Name == "Z") != (j == len(seg)-1) || (c.Name == "start" && j != 0) || c.Name == "creg" {
+				return bad(k, fmt.Sprintf("call %d of the path is %s: the path is started once, ended exactly once at its end, and sets no further register", j, c.Name))
+			}
+		}
+		// the circles, after the path data
+		body := seg[:len(seg)-1]
+		if len(body) < 3*len(p.Circles) {
+			return bad(k, "circles missing")
+		}
+		tail := body[len(body)-3*len(p.Circles):]
+		for ci, c := range p.Circles {
+			cx := float64(c.Cx)*float64(outSize)/float64(size) - (float64(outSize)/2 + float64(off[0]))
+			cy := float64(c.Cy)*float64(outSize)/float64(size) - (float64(outSize)/2 + float64(off[1]))
+			rr := float64(c.R) * float64(outSize) / float64(size)
+			mv, a1, a2 := tail[3*ci], tail[3*ci+1], tail[3*ci+2]
+			near := func(g float32, w float64) bool { return math.Abs(float64(g)-w) <= 1e-4*(1+math.Abs(w)) }
+			first := p.D == "" && ci == 0
+			if (first && mv.Name != "start") || (!first && mv.Name != "Y") || !near(mv.F[0], cx-rr) || !near(mv.F[1], cy) {
+				return bad(k, fmt.Sprintf("circle %d: expected a move to (%g,%g), got %s", ci, cx-rr, cy, mv.String()))
+			}
+			for ai, a := range []Call{a1, a2} {
+				dx := 2 * rr
+				if ai == 1 {
+					dx = -dx
+				}
+				if a.Name != "a" || !near(a.F[0], rr) || !near(a.F[1], rr) || a.F[2] != 0 || a.La || !a.Sw || !near(a.F[3], dx) || a.F[4] != 0 {
+					return bad(k, fmt.Sprintf("circle %d: expected a half-turn relative arc of radius %g by (%g,0), got %s", ci, rr, dx, a.String()))
+				}
+			}
+		}
+	}
+	return
 }
